@@ -126,6 +126,15 @@ def deep_eq(a, b):
     return bool(a == b)
 
 
+def _is_literal(*vals):
+    try:
+        for v in vals:
+            V.canon(v)
+        return True
+    except Exception:
+        return False
+
+
 def snap(v):
     """a snapshot that detects mutation (order of dict / set iteration included)"""
     try:
@@ -147,6 +156,10 @@ def run_cfg(ctx, t1, t2, cfg, is_copy, ip, stats_key):
     a, b = copy.deepcopy(t1), copy.deepcopy(t2)
     sa, sb = snap(a), snap(b)
     case = dict(t1=repr(t1), t2=repr(t2), cfg=cfg, ip=ip)
+    if stats_key == "verdict_exotic" or not _is_literal(t1, t2):
+        import base64
+        import pickle
+        case["pickle"] = base64.b64encode(pickle.dumps((t1, t2))).decode("ascii")   # keeps tzinfo and memory layout
     try:
         r = DeepDiff(a, b, ignore_private_variables=ip, **cfg)
     except Exception as e:  # noqa
@@ -329,61 +342,249 @@ def small_pairs(ctx, n):
     return [(a, b, "small_universe", False) for a, b in pairs]
 
 
-def gen_exotic(ctx, n):
-    """values with datetimes and numpy arrays (direct oracle only)"""
-    import numpy as np
+# ---------------------------------------------------------------------------
+# datetimes and numeric arrays (named in the statement; outside the Coq model:
+# direct oracle only).  Python == / numpy.array_equal is the oracle.
+# ---------------------------------------------------------------------------
+
+TZS = [None, datetime.timezone.utc, datetime.timezone(datetime.timedelta(hours=2)),
+       datetime.timezone(datetime.timedelta(hours=-5, minutes=-30))]
+MICROS = [0, 1, 2, 500000, 913070]
+
+
+def gen_moment(rng):
+    """a datetime / date / time / timedelta"""
+    r = rng.randrange(6)
+    if r <= 2:
+        return datetime.datetime(2024, rng.choice([1, 5]), rng.choice([1, 17]), rng.choice([0, 22]), rng.choice([0, 15]),
+                                 rng.choice([0, 34]), rng.choice(MICROS), tzinfo=rng.choice(TZS))
+    if r == 3:
+        return datetime.date(2024, rng.choice([1, 5]), rng.choice([1, 17]))
+    if r == 4:
+        return datetime.time(rng.choice([0, 22]), rng.choice([0, 15]), rng.choice([0, 34]), rng.choice(MICROS), tzinfo=rng.choice(TZS[:3]))
+    return datetime.timedelta(days=rng.choice([0, 1]), seconds=rng.choice([0, 7]), microseconds=rng.choice(MICROS))
+
+
+def moment_variants(rng, m):
+    """[(other, how)]: values close to m.  Whether they are equal is decided by Python ==."""
+    out = [(copy.deepcopy(m), "copy")]
+    us = datetime.timedelta(microseconds=1)
+    if isinstance(m, datetime.datetime):
+        out += [(m + us, "plus_1us"), (m.replace(microsecond=0), "us_dropped"), (m + datetime.timedelta(seconds=1), "plus_1s")]
+        if m.tzinfo is None:
+            out.append((m.replace(tzinfo=datetime.timezone.utc), "naive_to_aware"))
+        else:
+            out += [(m.astimezone(rng.choice(TZS[1:])), "same_instant_other_zone"), (m.replace(tzinfo=None), "aware_to_naive"),
+                    (m.replace(tzinfo=rng.choice(TZS[1:])), "other_zone_same_wall_clock")]
+    elif isinstance(m, datetime.date):
+        out += [(m + datetime.timedelta(days=1), "plus_1day"), (datetime.datetime(m.year, m.month, m.day), "date_to_datetime")]
+    elif isinstance(m, datetime.time):
+        out += [(m.replace(microsecond=(m.microsecond + 1) % 1000000), "plus_1us"), (m.replace(microsecond=0), "us_dropped"),
+                (m.replace(second=(m.second + 1) % 60), "plus_1s"), (m.replace(tzinfo=rng.choice(TZS[:3])), "other_zone_same_wall_clock")]
+    else:
+        out += [(m + us, "plus_1us"), (m + datetime.timedelta(seconds=1), "plus_1s")]
+    return out
+
+
+MOMENT_POSITIONS = {
+    "bare": lambda x: x,
+    "dict_value": lambda x: {"k": x, "z": 0},
+    "list_item": lambda x: [1, x],
+    "tuple_item": lambda x: (x, "t"),
+    "set_member": lambda x: {x, "other", 3},
+    "frozenset_member": lambda x: frozenset([x]),
+    "tuple_inside_set": lambda x: {(x, "in a tuple")},
+    "frozenset_inside_set": lambda x: {frozenset([x, 1])},
+    "dict_key": lambda x: {x: [1, 2]},
+    "deep": lambda x: {"k": [1, ({x},)]},
+}
+
+
+def gen_moment_pairs(ctx, n):
     rng = ctx.rng
-
-    def leaf():
-        r = rng.randrange(8)
-        if r == 0:
-            return datetime.date(2020 + rng.randrange(3), 1 + rng.randrange(12), 1 + rng.randrange(28))
-        if r == 1:
-            return datetime.datetime(2020 + rng.randrange(3), 1 + rng.randrange(12), 1 + rng.randrange(28), rng.randrange(24), rng.randrange(60), rng.randrange(60), rng.choice([0, 1, 500000]))
-        if r == 2:
-            return datetime.time(rng.randrange(24), rng.randrange(60), rng.randrange(60))
-        if r == 3:
-            return datetime.timedelta(days=rng.randrange(3), seconds=rng.randrange(100))
-        if r == 4:
-            return np.array([rng.randrange(4) for _ in range(rng.randrange(5))], dtype=rng.choice(["int64", "float64", "int32"]))
-        if r == 5:
-            return np.array([[rng.randrange(3) for _ in range(2)] for _ in range(rng.randrange(1, 4))], dtype=rng.choice(["int64", "float64"]))
-        return V.gen_atom(rng)
-
-    def val(depth):
-        if depth == 0 or rng.random() < 0.3:
-            return leaf()
-        k = rng.choice("LTD")
-        m = rng.randrange(4)
-        if k == "L":
-            return [val(depth - 1) for _ in range(m)]
-        if k == "T":
-            return tuple(val(depth - 1) for _ in range(m))
-        return {"k%d" % i: val(depth - 1) for i in range(m)}
-
-    def perturb(v):
-        """one change somewhere"""
-        if isinstance(v, list) and v and rng.random() < 0.8:
-            i = rng.randrange(len(v))
-            return v[:i] + [perturb(v[i])] + v[i + 1:]
-        if isinstance(v, tuple) and v and rng.random() < 0.8:
-            i = rng.randrange(len(v))
-            return v[:i] + (perturb(v[i]),) + v[i + 1:]
-        if isinstance(v, dict) and v and rng.random() < 0.8:
-            k = rng.choice(list(v))
-            return {q: (perturb(x) if q == k else x) for q, x in v.items()}
-        if isinstance(v, np.ndarray) and v.size and rng.random() < 0.8:
-            w = v.copy()
-            w.flat[rng.randrange(w.size)] += 1
-            return w
-        return leaf()
-
     out = []
     for _ in range(n):
-        x = val(2)
-        out.append((x, copy.deepcopy(x), "exotic_copy", True))
-        out.append((x, perturb(copy.deepcopy(x)), "exotic_edit", False))
+        m = gen_moment(rng)
+        for other, how in moment_variants(rng, m):
+            pos = rng.choice(sorted(MOMENT_POSITIONS))
+            wrap = MOMENT_POSITIONS[pos]
+            out.append((wrap(m), wrap(other), "moment:%s:%s@%s" % (type(m).__name__, how, pos), how == "copy"))
+    # hashable containers as set members (no datetimes needed): order / repetition inside a member
+    for a, b in [((1, 2), (2, 1)), ((1, 1, 2), (1, 2)), ((1, (2, 3)), (1, (3, 2))), ((1, 2), (1, 2))]:
+        out.append(({a, "x"}, {b, "x"}, "tuple_member_of_set", a == b))
+        out.append((frozenset([a]), frozenset([b]), "tuple_member_of_frozenset", a == b))
     return out
+
+
+def np_layouts(rng, a):
+    """the same array (shape, dtype, content) in another memory layout"""
+    import numpy as np
+    k = rng.randrange(4)
+    if k == 0:
+        return np.asfortranarray(a), "fortran"
+    if k == 1 and a.ndim >= 2:
+        perm = list(range(a.ndim))
+        rng.shuffle(perm)
+        inv = [perm.index(i) for i in range(a.ndim)]
+        return np.ascontiguousarray(a.transpose(perm)).transpose(inv), "transposed_view"
+    if k == 2:
+        big = np.zeros((a.shape[0] * 2,) + a.shape[1:], dtype=a.dtype, order=rng.choice("CF"))
+        big[::2] = a
+        return big[::2], "strided_view"
+    return a.copy(order="C"), "c_copy"
+
+
+def gen_numpy_pairs(ctx, n):
+    import numpy as np
+    rng = ctx.rng
+    out = []
+
+    def nest(x, y):
+        k = rng.randrange(4)
+        if k == 0:
+            return {"arr": x, "n": 1}, {"arr": y, "n": 1}
+        if k == 1:
+            return [1, {"x": (x,)}], [1, {"x": (y,)}]
+        return x, y
+
+    # arrays without elements
+    for sh1, sh2 in [((0, 3), (0, 2)), ((0,), (0, 1)), ((2, 0), (2, 0)), ((0, 3), (0, 3))]:
+        out.append((np.zeros(sh1), np.zeros(sh2), "numpy:no_elements", sh1 == sh2))
+    for _ in range(n):
+        nd = rng.choice([1, 2, 2, 3, 3, 3, 4])
+        shape = tuple(rng.choice([1, 2, 2, 3]) for _ in range(nd))
+        if rng.random() < 0.03:
+            shape = shape[:-1] + (0,)
+        dtype = rng.choice(["int64", "float64", "bool", "int32"])
+        size = int(np.prod(shape))
+        if dtype == "bool":
+            a = np.array([rng.random() < 0.5 for _ in range(size)], dtype=dtype).reshape(shape)
+        elif rng.random() < 0.5:
+            a = np.arange(size).astype(dtype).reshape(shape)          # all rows distinct
+        else:
+            a = np.array([rng.randrange(4) / (2 if dtype == "float64" else 1) for _ in range(size)]).astype(dtype).reshape(shape)
+        if rng.random() < 0.3:
+            a = np.asfortranarray(a)
+        b, how = np_layouts(rng, a)
+        x, y = nest(a, b)
+        out.append((x, y, "numpy:copy_in_other_layout:" + how, True))
+        if size:
+            c, how2 = np_layouts(rng, a)
+            c = c.copy(order="K") if not c.flags.writeable or not c.flags.owndata else c.copy(order="K")
+            idx = tuple(rng.randrange(d) for d in shape)
+            c[idx] = (not c[idx]) if dtype == "bool" else c[idx] + 1
+            x, y = nest(a, c)
+            out.append((x, y, "numpy:element_changed:" + how2, False))
+        if nd >= 2 and shape[0] > 1:
+            perm = list(range(shape[0]))
+            rng.shuffle(perm)
+            c, how3 = np_layouts(rng, a[perm])
+            x, y = nest(a, c)
+            out.append((x, y, "numpy:rows_permuted:" + how3, False))
+        if nd >= 3 and size:
+            # the same rows attached to other leading indexes, in Fortran order (and a plain transpose)
+            lead, last = shape[:-1], shape[-1]
+            c = np.asfortranarray(np.ascontiguousarray(a).reshape(-1, last).reshape(lead + (last,), order="F"))
+            x, y = nest(np.ascontiguousarray(a), c)
+            out.append((x, y, "numpy:rows_relabelled_fortran", False))
+            axes = (1, 0) + tuple(range(2, nd))
+            x, y = nest(a, np.asfortranarray(a.transpose(axes)))
+            out.append((x, y, "numpy:leading_axes_swapped_fortran", False))
+        other = rng.choice(["int64", "float64"])
+        if other != dtype:
+            out.append((a, a.astype(other), "numpy:dtype_changed", False))
+    return out
+
+
+def gen_exotic(ctx, n):
+    """(t1, t2, kind, is_copy) with datetimes / numeric arrays; is_copy = a structural copy by construction"""
+    return gen_moment_pairs(ctx, n) + gen_numpy_pairs(ctx, n)
+
+
+# --- known defects of the unchanged tree in this domain: counterfactual matchers -------------
+# Each defect has a normalisation N_d of the inputs that removes exactly the information the
+# implementation loses.  A failing soundness case (empty diff, t1 != t2) is attributed to defect d
+# iff the inputs become equal when ALL known normalisations are applied and do NOT become equal
+# when all but N_d are applied (the defect is necessary for the failure).  A failure that no
+# combination explains stays a VIOLATION.
+
+def _map(v, f, in_set=False):
+    """rebuild v bottom-up, applying f(x, in_set) to every node (in_set: inside a set/frozenset member)"""
+    import numpy as np
+    if isinstance(v, dict):
+        v = {_map(k, f, in_set): _map(x, f, in_set) for k, x in v.items()}
+    elif isinstance(v, list):
+        v = [_map(x, f, in_set) for x in v]
+    elif isinstance(v, tuple):
+        v = tuple(_map(x, f, in_set) for x in v)
+    elif isinstance(v, frozenset):
+        v = frozenset(_map(x, f, True) for x in v)
+    elif isinstance(v, set):
+        v = set(_map(x, f, True) for x in v)
+    elif isinstance(v, np.ndarray):
+        pass
+    return f(v, in_set)
+
+
+def n_time_in_set(v, in_set):
+    """datetime.time set members are hashed through whole seconds without tzinfo"""
+    if in_set and isinstance(v, datetime.time):
+        return v.replace(microsecond=0, tzinfo=None)
+    return v
+
+
+def n_naive_is_utc(v, in_set):
+    """naive datetimes are taken to be UTC (default_timezone) before any comparison"""
+    if isinstance(v, datetime.datetime) and v.tzinfo is None:
+        return v.replace(tzinfo=datetime.timezone.utc)
+    return v
+
+
+def n_member_order(v, in_set):
+    """tuples inside set members are hashed ignoring order and repetition"""
+    if in_set and isinstance(v, tuple):
+        return frozenset(v)
+    return v
+
+
+def n_empty_array(v, in_set):
+    """arrays without elements have no rows to compare, whatever their shapes"""
+    import numpy as np
+    if isinstance(v, np.ndarray) and v.size == 0:
+        return np.zeros((0,), dtype=v.dtype)
+    return v
+
+
+NORMALISERS = {"C02-TIME-IN-SET": n_time_in_set, "C02-NAIVE-AWARE": n_naive_is_utc,
+               "C02-SET-MEMBER-ORDER": n_member_order, "C02-EMPTY-ARRAY-SHAPE": n_empty_array}
+
+
+def _case_values(case):
+    import base64
+    import pickle
+    if "pickle" in case:
+        return pickle.loads(base64.b64decode(case["pickle"]))
+    return eval(case["t1"]), eval(case["t2"])
+
+
+def _explained_by(key):
+    def matcher(case):
+        if case.get("clause") != "empty diff but t1 != t2":
+            return False
+        t1, t2 = _case_values(case)
+
+        def norm(keys):
+            a, b = t1, t2
+            for k in keys:
+                a, b = _map(a, NORMALISERS[k]), _map(b, NORMALISERS[k])
+            return deep_eq(a, b)
+        allk = sorted(NORMALISERS)
+        return norm(allk) and not norm([k for k in allk if k != key])
+    return matcher
+
+
+for _k in NORMALISERS:
+    MATCHERS[_k] = _explained_by(_k)
 
 
 def bytes_key_probe(ctx):
@@ -415,6 +616,18 @@ def replay_witnesses(ctx):
         ctx.break_("correspondence", {"name": "private-key witness", "detail": "DeepDiff({'__a':1},{'__a':2}) is no longer empty: C02_empty_sound_refuted_private's witness is out of date", "impl": repr(r)})
     if DeepDiff({"__a": 1}, {"__a": 2}, ignore_private_variables=False) == {}:
         ctx.fail(dict(t1="{'__a': 1}", t2="{'__a': 2}", cfg={}, ip=False, clause="empty diff but t1 != t2"), "private keys ignored although ignore_private_variables=False")
+    import numpy as np
+    us = datetime.timezone.utc
+    n = datetime.datetime(2024, 5, 17, 22, 15, 34)
+    witnesses = {"C02-TIME-IN-SET": ({datetime.time(1, 2, 3, 5)}, {datetime.time(1, 2, 3, 6)}),
+                 "C02-NAIVE-AWARE": (n, n.replace(tzinfo=us)),
+                 "C02-SET-MEMBER-ORDER": ({(1, 2)}, {(2, 1)}),
+                 "C02-EMPTY-ARRAY-SHAPE": (np.zeros((0, 3)), np.zeros((0, 2)))}
+    for key, (a, b) in witnesses.items():
+        if key in open_keys:
+            if DeepDiff(copy.deepcopy(a), copy.deepcopy(b)) != {}:
+                ctx.break_("correspondence", {"name": key + " witness", "detail": "finding %s no longer reproduces on the implementation; known_findings.d/C02.json is out of date" % key})
+            run_cfg(ctx, a, b, dict(view="text", verbose_level=1), False, False, "verdict_exotic")
     if "K1" in open_keys:
         r = DeepDiff({"NONE"}, {None})
         if r != {}:
@@ -433,7 +646,9 @@ def run(ctx):
         if i % 3 == 0 or kind == "atom_list_edit":
             vcases += opcode_validity_cases(t1, t2)
     for (t1, t2, kind, is_copy) in gen_exotic(ctx, 1500 if ctx.thorough else 150):
-        ctx.count("gen:" + kind)
+        ctx.count("gen:" + kind.split("@")[0])
+        if "@" in kind:
+            ctx.count("gen:moment_position:" + kind.split("@")[1])
         oracle_pair(ctx, t1, t2, is_copy, full_grid=False, stats_key="verdict_exotic", model_ok=False)
     bytes_key_probe(ctx)
     replay_witnesses(ctx)
@@ -446,16 +661,15 @@ def run(ctx):
 def replay(ctx, data):
     case = data.get("case", {})
     if "t1" in case:
-        import numpy as np  # noqa: F401  (reprs of exotic values)
-        env = {"datetime": datetime, "array": __import__("numpy").array, "frozenset": frozenset}
+        env = {"datetime": datetime, "frozenset": frozenset}
         try:
-            t1, t2 = eval(case["t1"], env), eval(case["t2"], env)
+            t1, t2 = _case_values(case) if "pickle" in case else (eval(case["t1"], env), eval(case["t2"], env))
         except Exception as e:  # noqa
             ctx.break_("harness", {"error": "cannot rebuild the replay inputs: " + repr(e)})
             return
         cfg = case.get("cfg") or {}
         if cfg:
-            run_cfg(ctx, t1, t2, cfg, deep_eq(t1, t2) and case.get("clause") == "non-empty diff for a structural copy", case.get("ip", True), "replay")
+            run_cfg(ctx, t1, t2, cfg, case.get("clause") == "non-empty diff for a structural copy", case.get("ip", True), "replay")
         else:
             oracle_pair(ctx, t1, t2, False, True, "replay")
     else:
